@@ -23,6 +23,12 @@ fixed("C03","C03/IsDomainName-true-model-false/wire-length-256","f4d6b59","names
 fixed("C03","C03/packer-accepts-non-fqdn/random-text","bb43edc","IsFqdn counted the backslashes before the final dot in runes: a multi-byte UTF-8 sequence in front of them flipped the parity, so names ending in an escaped dot were packed and some fully-qualified ones refused")
 # ---- C16
 fixed("C16","C16/copy-alias/OPT/*dns.EDNS0_SUBNET.Address","e6225bc","Copy/Msg.Copy shared the Address slice of EDNS0_SUBNET and the AlgCode slices of EDNS0_DAU/DHU/N3U with the original")
+# ---- C17
+for pos in ("boundary","inside","before","after"):
+    known("C17","C17/validity-period/beyond-2^32/"+pos,"RRSIG.ValidityPeriod adjusts the 32-bit inception/expiration by multiples of 2^31 instead of using RFC 1982 arithmetic modulo 2^32, so windows and times at or beyond the 2^32 wrap (year 2106) are judged wrongly although all three are within 68 years of each other; an RFC 1982 repair breaks the existing TestSignature, which expects a 120-year window (1980-2100) to be valid")
+fixed("C17","C17/nsec3-cover/normal/equals-owner","cf9dea5","NSEC3.Cover returned true for a name whose hash equals the owner hash of a non-wrapping interval")
+fixed("C17","C17/nsec3-hash-non-ascii-folded","bae68b8","HashName lower-cased non-ASCII letters (strings.ToLower), so names differing in such a letter hashed alike")
+fixed("C17","C17/nsec3-cover/normal/inside-or-outside/lower-case-next-hash","92ce231","NSEC3.Cover compared a lower-case NextDomain bytewise with upper-cased hashes, ordering the interval by ASCII case instead of by value")
 # ---- C20
 known("C20","C20/not-reflexive/OPT","OPT.isDuplicate is hard-wired to false: an OPT record is never a duplicate of itself or of its copy")
 known("C20","C20/not-reflexive/XPRIV","PrivateRR.isDuplicate is hard-wired to false: a user-registered private record is never a duplicate of itself or of its copy")
